@@ -490,6 +490,22 @@ def run(ctx):
             # oracle: statistic of the transformed members (fsum / sorted), rows removed as documented
             if special or not samelen:
                 continue
+            # transform-first law (corr selects its rows on the raw data: asserted when the
+            # transform creates no missing value of its own)
+            if all(math.isnan(a) == math.isnan(b) for a, b in zip(obs, tobs)) and \
+                    all(math.isnan(a) == math.isnan(b) for r, tr in zip(ens, tens) for a, b in zip(r, tr)):
+                ta2 = np.array(tobs)
+                te2 = np.array(tens) if ea.ndim == 2 else np.array([r[0] for r in tens])
+                r2 = call(metrics.corr, ta2, te2, idt, excl, stat, typ)
+                orc["score(obs, sim, trans) = score(T obs, T sim, Identity)"] += 1
+                ok = (res[0] == r2[0]) and (res[0] == "err" or res[1] == r2[1] or
+                                            (math.isnan(res[1]) and math.isnan(r2[1])) or
+                                            close(res[1], r2[1], 1e-12))
+                if not ok:
+                    fail(None, "C04/corr/transform-not-applied-first",
+                         f"corr(obs, ens, {spec}, {stat}, {typ}) = {res} but on the transformed data with "
+                         f"Identity it is {r2}",
+                         dict(base, call="corr", ens=ens, stat=stat, type=typ, impl=res, impl_on_transformed=r2))
             rows = [(to, [v for v in tr if not math.isnan(v)])
                     for o, r, to, tr in zip(obs, ens, tobs, tens)
                     if not math.isnan(o) and any(not math.isnan(v) for v in r)]
